@@ -244,15 +244,13 @@ fn file_name<R: Reader<Offset = usize>>(dwarf: &Dwarf<R>, unit: &Unit<R>, idx: u
                 .and_then(|v| dwarf.attr_string(unit, v).ok())
                 .and_then(|s| s.to_slice().ok().map(|c| hex(&c)));
             let md5 = if f.md5().iter().all(|b| *b == 0) { "-".to_string() } else { hex(&f.md5()[..]) };
-            format!(
-                "file({},{},t{},s{},m{},src{})",
-                dir.unwrap_or_else(|| "-".into()),
-                name.unwrap_or_else(|| "?".into()),
-                f.timestamp(),
-                f.size(),
-                md5,
-                src.unwrap_or_else(|| "-".into())
-            )
+            let d = dir.unwrap_or_else(|| "-".into());
+            let n = name.unwrap_or_else(|| "?".into());
+            if f.timestamp() == 0 && f.size() == 0 && md5 == "-" && src.is_none() {
+                format!("file({},{})", d, n)
+            } else {
+                format!("file({},{},t{},s{},m{},src{})", d, n, f.timestamp(), f.size(), md5, src.unwrap_or_else(|| "-".into()))
+            }
         }
     }
 }
